@@ -2,10 +2,11 @@
 # usage: standin-overlay.sh <pkg dir rel to /repo> <test file under /verif/replay> <TestName>
 # Runs an in-package test injected with -overlay (nothing is written to /repo); exit status = test status.
 export GOFLAGS=-mod=mod GOPROXY=off GOSUMDB=off GOTOOLCHAIN=local
+repo=${KV_REPO:-/repo}
 d=$(mktemp -d)
 trap 'rm -rf "$d"' EXIT
-printf '{"Replace":{"%s":"%s"}}' "/repo/$1/kv_standin_verif_test.go" "/verif/replay/$2" > "$d/ov.json"
-cd /repo && go test -overlay "$d/ov.json" -vet=off -count=1 -timeout 300s -run "$3" -v "./$1" > "$d/out" 2>&1
+printf '{"Replace":{"%s":"%s"}}' "$repo/$1/kv_standin_verif_test.go" "/verif/replay/$2" > "$d/ov.json"
+cd "$repo" && go test -overlay "$d/ov.json" -vet=off -count=1 -timeout 300s -run "$3" -v "./$1" > "$d/out" 2>&1
 rc=$?
 tail -15 "$d/out"
 exit $rc
